@@ -730,3 +730,218 @@ Proof.
   rewrite Hnum. unfold Qdiv. ring.
 Qed.
 End EntropyOrder.
+
+(* ---------- partition_distance with the early return of fix b5787bf ---------- *)
+Lemma vmax_le n (c : vec nat) b : (forall i, (i < n)%nat -> (c i <= b)%nat) -> (vmax n c <= b)%nat.
+Proof.
+  intros H. unfold vmax, to_list.
+  assert (G : forall l, (forall x, In x l -> (x < n)%nat) -> (fold_right Nat.max 0%nat (map c l) <= b)%nat).
+  { induction l as [|a l IH]; intros Hl; cbn [map fold_right]; [lia|].
+    pose proof (H a (Hl a (or_introl eq_refl))). specialize (IH (fun x Hx => Hl x (or_intror Hx))). lia. }
+  apply G. intros x Hx. apply in_seq in Hx. lia.
+Qed.
+
+Lemma rank_all_equal n ci i : (forall j, (j < n)%nat -> ci j = ci i) -> rank (to_list n ci) (ci i) = 0%nat.
+Proof.
+  intros H. unfold rank.
+  assert (E : filter (fun y => Z.ltb y (ci i)) (to_list n ci) = []).
+  { unfold to_list. induction (seq 0 n) as [|a l IH] eqn:El in H |- *.
+    - reflexivity.
+    - assert (Hin : forall x, In x (a :: l) -> (x < n)%nat).
+      { intros x Hx. rewrite <- El in Hx. apply in_seq in Hx. lia. }
+      clear El. revert Hin. induction (a :: l) as [|b t IHt]; intros Hin; cbn [map filter]; [reflexivity|].
+      rewrite (H b (Hin b (or_introl eq_refl))). rewrite Z.ltb_irrefl. apply IHt. intros x Hx. apply Hin. right; exact Hx. }
+  rewrite E. reflexivity.
+Qed.
+
+(* max(relabelled labels) = 1  <=>  the partition has a single block (and there is at least one node) *)
+Lemma one_block_iff n ci :
+  Nat.eqb (vmax n (relabel n ci)) 1 = true <-> ((0 < n)%nat /\ forall i j, (i < n)%nat -> (j < n)%nat -> ci i = ci j).
+Proof.
+  rewrite Nat.eqb_eq. split.
+  - intros H. split.
+    + destruct n; [cbn in H; discriminate|lia].
+    + intros i j Hi Hj. apply (relabel_same n ci i j Hi Hj).
+      pose proof (relabel_canon n ci i Hi). pose proof (relabel_canon n ci j Hj). lia.
+  - intros [Hn Hall]. apply Nat.le_antisymm.
+    + apply vmax_le. intros i Hi. rewrite relabel_spec by exact Hi.
+      rewrite (rank_all_equal n ci i (fun j Hj => Hall j i Hj Hi)). lia.
+    + pose proof (relabel_canon n ci 0%nat Hn). lia.
+Qed.
+
+Lemma one_block_same n ci ci' : same_part n ci ci' ->
+  Nat.eqb (vmax n (relabel n ci)) 1 = Nat.eqb (vmax n (relabel n ci')) 1.
+Proof.
+  intros H.
+  destruct (Nat.eqb (vmax n (relabel n ci')) 1) eqn:E'.
+  - apply one_block_iff. apply one_block_iff in E'. destruct E' as [Hn Hall]. split; [exact Hn|].
+    intros i j Hi Hj. apply (H i j Hi Hj). apply Hall; assumption.
+  - destruct (Nat.eqb (vmax n (relabel n ci)) 1) eqn:E; [|reflexivity].
+    apply one_block_iff in E. destruct E as [Hn Hall].
+    assert (E2 : Nat.eqb (vmax n (relabel n ci')) 1 = true).
+    { apply one_block_iff. split; [exact Hn|]. intros i j Hi Hj. apply (H i j Hi Hj). apply Hall; assumption. }
+    congruence.
+Qed.
+
+Lemma pd_trivial_sym n cx cy : pd_trivial n cx cy = pd_trivial n cy cx.
+Proof. unfold pd_trivial. rewrite andb_comm. reflexivity. Qed.
+
+Lemma pd_trivial_same n cx cy cx' cy' : same_part n cx cx' -> same_part n cy cy' ->
+  pd_trivial n cx cy = pd_trivial n cx' cy'.
+Proof. intros Hx Hy. unfold pd_trivial. rewrite (one_block_same n cx cx' Hx), (one_block_same n cy cy' Hy). reflexivity. Qed.
+
+(* on the early-return branch the two partitions coincide *)
+Lemma pd_trivial_same_part n cx cy : pd_trivial n cx cy = true -> same_part n cx cy.
+Proof.
+  unfold pd_trivial. intros H. apply orb_true_iff in H. destruct H as [H|H].
+  - apply Nat.eqb_eq in H. subst n. intros i j Hi Hj. assert (i = 0%nat) by lia. assert (j = 0%nat) by lia. subst. tauto.
+  - apply andb_true_iff in H. destruct H as [Hx Hy]. apply one_block_iff in Hx, Hy.
+    destruct Hx as [_ Hx], Hy as [_ Hy]. intros i j Hi Hj. split; intros _; [apply Hy|apply Hx]; assumption.
+Qed.
+
+Lemma sumQ_const1' n : sumQ (fun _ => 1) n == qof n.
+Proof.
+  unfold qof. induction n; cbn [sumQ]; [reflexivity|]. rewrite IHn, Nat2Z.inj_succ. unfold Z.succ.
+  rewrite inject_Z_plus. reflexivity.
+Qed.
+
+Lemma bsize_le_n n c i : bsize n c i <= qof n.
+Proof.
+  rewrite <- sumQ_const1'. unfold bsize, mdz_cnt. apply sumQ_le. intros l _.
+  destruct (Nat.eqb (c l) (c i)); cbn [ind]; lra.
+Qed.
+
+Lemma bsize_full_block n (c : vec nat) i : bsize n c i == qof n -> forall l, (l < n)%nat -> c l = c i.
+Proof.
+  intros H l Hl.
+  assert (Hterm : forall l, (l < n)%nat -> 0 <= 1 - ind (Nat.eqb (c l) (c i))).
+  { intros l0 _. destruct (Nat.eqb (c l0) (c i)); cbn [ind]; lra. }
+  assert (Hz : sumQ (fun l => 1 - ind (Nat.eqb (c l) (c i))) n == 0).
+  { rewrite sumQ_sub, sumQ_const1'. unfold bsize, mdz_cnt in H. lra. }
+  pose proof (sumQ_zero_inv' _ n Hterm Hz l Hl) as H0. cbn beta in H0.
+  destruct (Nat.eqb_spec (c l) (c i)) as [E|E]; [exact E|]. cbn [ind] in H0. lra.
+Qed.
+
+Section PartitionDistanceFixed.
+Variable log : Q -> Q.
+Hypothesis log_proper : forall a b, a == b -> log a == log b.
+
+Theorem partition_distance_symmetric n cx cy :
+  fst (partition_distance log n cx cy) == fst (partition_distance log n cy cx) /\
+  snd (partition_distance log n cx cy) == snd (partition_distance log n cy cx).
+Proof.
+  unfold partition_distance. rewrite (pd_trivial_sym n cy cx).
+  destruct (pd_trivial n cx cy); [split; reflexivity|apply pd_general_symmetric; exact log_proper].
+Qed.
+
+Theorem partition_distance_partition_only n cx cy cx' cy' : same_part n cx cx' -> same_part n cy cy' ->
+  fst (partition_distance log n cx cy) == fst (partition_distance log n cx' cy') /\
+  snd (partition_distance log n cx cy) == snd (partition_distance log n cx' cy').
+Proof.
+  intros Hx Hy. unfold partition_distance. rewrite (pd_trivial_same n cx cy cx' cy' Hx Hy).
+  destruct (pd_trivial n cx' cy'); [split; reflexivity|apply pd_general_partition_only; assumption].
+Qed.
+
+Hypothesis log_incr : forall a b, 0 < a -> a < b -> log a < log b.
+Hypothesis log_1 : log 1 == 0.
+
+(* H >= 0, and H = 0 only for the one-block partition *)
+Lemma entropy_nf_terms n c i : (0 < n)%nat -> (i < n)%nat -> 0 <= - (1 / qof n * log (bsize n c i / qof n)).
+Proof.
+  intros Hn Hi. pose proof (qof_pos n Hn) as Hq.
+  assert (Hpos : 0 < bsize n c i / qof n).
+  { apply Qlt_shift_div_l; [exact Hq|]. pose proof (bsize_ge1 n c i Hi). lra. }
+  assert (Hle : bsize n c i / qof n <= 1).
+  { apply Qle_shift_div_r; [exact Hq|]. pose proof (bsize_le_n n c i). lra. }
+  pose proof (log_mono log log_proper log_incr _ _ Hpos Hle) as Hl. rewrite log_1 in Hl.
+  assert (H1 : 0 < 1 / qof n) by (apply Qlt_shift_div_l; [exact Hq|lra]). nra.
+Qed.
+
+Lemma entropy_nf_nonneg n c : (0 < n)%nat -> 0 <= entropy_nf log n c.
+Proof.
+  intros Hn. unfold entropy_nf.
+  assert (E : - sumQ (fun i => 1 / qof n * log (bsize n c i / qof n)) n ==
+              sumQ (fun i => - (1 / qof n * log (bsize n c i / qof n))) n).
+  { rewrite <- (sumQ_scal (-1)). apply sumQ_ext. intros. ring. }
+  rewrite E. apply sumQ_nonneg. intros i Hi. apply entropy_nf_terms; assumption.
+Qed.
+
+Lemma entropy_nf_zero_one_block n c : (0 < n)%nat -> entropy_nf log n c == 0 ->
+  forall i l, (i < n)%nat -> (l < n)%nat -> c l = c i.
+Proof.
+  intros Hn H0 i l Hi Hl. pose proof (qof_pos n Hn) as Hq. unfold entropy_nf in H0.
+  assert (E : sumQ (fun i => - (1 / qof n * log (bsize n c i / qof n))) n == 0).
+  { rewrite <- H0. rewrite <- (sumQ_scal (-1)). apply sumQ_ext. intros. ring. }
+  pose proof (sumQ_zero_inv' _ n (fun i Hi => entropy_nf_terms n c i Hn Hi) E i Hi) as Hi0. cbn beta in Hi0.
+  assert (H1 : 0 < 1 / qof n) by (apply Qlt_shift_div_l; [exact Hq|lra]).
+  assert (Hlog : log (bsize n c i / qof n) == log 1) by (rewrite log_1; nra).
+  assert (Hpos : 0 < bsize n c i / qof n).
+  { apply Qlt_shift_div_l; [exact Hq|]. pose proof (bsize_ge1 n c i Hi). lra. }
+  assert (Hle : bsize n c i / qof n <= 1).
+  { apply Qle_shift_div_r; [exact Hq|]. pose proof (bsize_le_n n c i). lra. }
+  pose proof (log_inj_le log log_incr _ _ Hpos Hle Hlog) as E1.
+  apply (bsize_full_block n c i); [|exact Hl].
+  assert (bsize n c i == bsize n c i / qof n * qof n) as -> by (field; lra). rewrite E1. ring.
+Qed.
+
+Lemma Hx_zero_one_block n cx : (0 < n)%nat -> Hx_of log n cx == 0 -> Nat.eqb (vmax n (relabel n cx)) 1 = true.
+Proof.
+  intros Hn H0. unfold Hx_of in H0. rewrite entropy_node_form in H0 by (exact log_proper || apply relabel_canon).
+  apply one_block_iff. split; [exact Hn|]. intros i j Hi Hj. apply (relabel_same n cx i j Hi Hj).
+  symmetry. apply (entropy_nf_zero_one_block n _ Hn H0 i j Hi Hj).
+Qed.
+
+Lemma Hx_nonneg n cx : (0 < n)%nat -> 0 <= Hx_of log n cx.
+Proof.
+  intros Hn. unfold Hx_of. rewrite entropy_node_form by (exact log_proper || apply relabel_canon).
+  apply entropy_nf_nonneg; exact Hn.
+Qed.
+
+(* same partition up to renaming => VIn = 0 and MIn = 1, with NO side condition (n >= 1) *)
+Theorem partition_distance_same n cx cy : (0 < n)%nat -> same_part n cx cy ->
+  fst (partition_distance log n cx cy) == 0 /\ snd (partition_distance log n cx cy) == 1.
+Proof.
+  intros Hn H. unfold partition_distance. destruct (pd_trivial n cx cy) eqn:Et; [split; reflexivity|].
+  destruct (pd_general_same log log_proper n cx cy H) as [H1 H2]. split; [exact H1|]. apply H2.
+  intros H0. pose proof (Hx_zero_one_block n cx Hn H0) as Ex.
+  pose proof (one_block_same n cx cy H) as Exy. unfold pd_trivial in Et. rewrite <- Exy, Ex in Et.
+  rewrite orb_true_r in Et. discriminate.
+Qed.
+
+Theorem VIn_nonneg n cx cy : (1 < n)%nat -> 0 <= fst (partition_distance log n cx cy).
+Proof.
+  intros Hn. unfold partition_distance. destruct (pd_trivial n cx cy); [cbn; lra|].
+  apply pd_general_VIn_nonneg; assumption.
+Qed.
+
+Theorem VIn_zero_same n cx cy : (1 < n)%nat -> fst (partition_distance log n cx cy) == 0 -> same_part n cx cy.
+Proof.
+  intros Hn. unfold partition_distance. destruct (pd_trivial n cx cy) eqn:Et.
+  - intros _. apply pd_trivial_same_part. exact Et.
+  - apply pd_general_VIn_zero_same; assumption.
+Qed.
+
+Theorem MIn_one_same n cx cy : (1 < n)%nat -> snd (partition_distance log n cx cy) == 1 -> same_part n cx cy.
+Proof.
+  intros Hn. unfold partition_distance. destruct (pd_trivial n cx cy) eqn:Et.
+  - intros _. apply pd_trivial_same_part. exact Et.
+  - apply pd_general_MIn_one_same; try assumption.
+    intros H0. assert (Hn0 : (0 < n)%nat) by lia.
+    pose proof (Hx_nonneg n cx Hn0). pose proof (Hx_nonneg n cy Hn0).
+    assert (Ex : Hx_of log n cx == 0) by lra. assert (Ey : Hx_of log n cy == 0) by lra.
+    unfold pd_trivial in Et. rewrite (Hx_zero_one_block n cx Hn0 Ex), (Hx_zero_one_block n cy Hn0 Ey) in Et.
+    rewrite orb_true_r in Et. discriminate.
+Qed.
+
+(* together: for n > 1,  VIn = 0 <=> same partition <=> MIn = 1 *)
+Theorem partition_distance_exactly_when n cx cy : (1 < n)%nat ->
+  (fst (partition_distance log n cx cy) == 0 <-> same_part n cx cy) /\
+  (snd (partition_distance log n cx cy) == 1 <-> same_part n cx cy).
+Proof.
+  intros Hn. assert (Hn0 : (0 < n)%nat) by lia. split; split.
+  - apply VIn_zero_same; exact Hn.
+  - intros H. apply (partition_distance_same n cx cy Hn0 H).
+  - apply MIn_one_same; exact Hn.
+  - intros H. apply (partition_distance_same n cx cy Hn0 H).
+Qed.
+End PartitionDistanceFixed.
